@@ -29,10 +29,35 @@ THEOREMS = ["C17_area_independent_of_vertex_order", "C17_centroid_independent_of
             "C17_find_index_bisection_is_contract", "C17_select_picks_area_interval",
             "C17_select_off_by_one_refuted", "C17_emissivity_exact_for_constants",
             "C17_sample_point_in_triangle", "C17_emissivity_unbiased_partial",
-            "C17_expectation_for_every_sample_count_partial", "C17_stratified_choice_refuted"]
+            "C17_expectation_for_every_sample_count_partial", "C17_stratified_choice_refuted",
+            "C17_selection_probability_on_uniform_grid", "C17_expectation_on_uniform_grid",
+            "C17_cumulative_areas_sorted", "C17_search_reference_is_model", "C17_fast_evaluators_equal_model",
+            "C17_constructor_accepts_only_valid", "C17_draw_stream", "C17_rectangle_helper_accepts_trapezoid"]
 
-PI = 3.141592653589793          # the constant of voxels.pyx line 41
+PI = 3.141592653589793          # the constant of voxels.pyx line 41; re-read from the source at the start of run()
+DEFAULT_SAMPLES = 10            # likewise (default grid_samples of the signatures)
 F = Fraction
+
+
+# ---------------------------------------------------------------------------------------------
+# constants read from the current source (fail-closed): PI, default grid_samples / primitive_type
+# ---------------------------------------------------------------------------------------------
+def translate_constants(repo):
+    import re
+    src = open(os.path.join(repo, "cherab", "tools", "inversions", "voxels.pyx")).read()
+    m = re.findall(r"^cdef double PI = ([0-9][0-9.eE+-]*)[ \t]*$", src, re.M)
+    if len(m) != 1:
+        raise RuntimeError("translator: expected exactly one 'cdef double PI = <literal>' line, found %d" % len(m))
+    pi = float(m[0])
+    d1 = re.findall(r"cpdef double emissivity_from_function\(self, emission_function, int grid_samples=(\d+)\)", src)
+    d2 = re.findall(r"def emissivities_from_function\(self, emission_function, int grid_samples=(\d+)\)", src)
+    if len(d1) != 2 or len(d2) != 1:
+        raise RuntimeError("translator: signatures of emissivity_from_function (2) / emissivities_from_function (1) not "
+                           "found as expected: %r %r" % (d1, d2))
+    pt = re.findall(r"def __init__\(self, vertices, parent=None, material=None, primitive_type='(\w+)'\)", src)
+    if len(pt) != 1:
+        raise RuntimeError("translator: AxisymmetricVoxel.__init__ signature not found")
+    return {"PI": pi, "PI_text": m[0], "default_grid_samples": [int(x) for x in d1 + d2], "default_primitive_type": pt[0]}
 
 
 # ---------------------------------------------------------------------------------------------
@@ -112,7 +137,7 @@ def tolerances(pts):
     ta = e * acr / 2
     tx = e * (agx / (3 * s) + abs(cx) * acr / s) + abs(cx) / 2 ** 50
     ty = e * (agy / (3 * s) + abs(cy) * acr / s) + abs(cy) / 2 ** 50
-    tv = 2 * frac(PI) * (tx * area + abs(cx) * ta) + 2 * frac(PI) * abs(cx) * area / 2 ** 50
+    tv = 2 * frac(math.pi) * (tx * area + abs(cx) * ta) + 2 * frac(math.pi) * abs(cx) * area / 2 ** 50
     return ta, tx, ty, tv
 
 
@@ -286,8 +311,10 @@ class Impl:
             v = self.Voxel(pts, primitive_type=primitive_type)
             stored = [(float(p.x), float(p.y)) for p in v.vertices]
             c = v.cross_section_centroid
+            kids = list(v.children)
             return v, {"stored": stored, "area": float(v.cross_sectional_area), "cx": float(c.x), "cy": float(c.y),
-                       "volume": float(v.volume)}
+                       "volume": float(v.volume),
+                       "rect_path": (len(kids) == 1 and type(kids[0]).__name__ == "Subtract") if primitive_type == "csg" else None}
         except (ZeroDivisionError, ValueError, TypeError, RuntimeError, IndexError) as e:
             # an exception on a simple polygon of non-zero area is a finding, reported by the caller
             raise ImplError({"claim": "a voxel built from a simple polygon reports its area, centroid and volume "
@@ -358,7 +385,7 @@ def search_geometry(impl, pts, all_variants):
     fails = []
     area, cx, cy = exact_reference(pts)
     ta, tx, ty, tv = tolerances(pts)
-    vol = 2 * frac(PI) * cx * area
+    vol = 2 * frac(math.pi) * cx * area
     outs = []
     for var in (variants(pts) if all_variants else [pts]):
         try:
@@ -630,8 +657,9 @@ def search_forms_and_histories(impl, pts, rng):
             if emis(v, np.int64(5)) != e1:
                 fails.append({"claim": "grid_samples given as numpy integer behaves like the Python int", "polygon": pts})
         elif what == "default n":
-            if emis(v) != emis(v, 10):
-                fails.append({"claim": "default grid_samples is 10", "polygon": pts, "raysect_seed": rseed})
+            if emis(v) != emis(v, DEFAULT_SAMPLES):
+                fails.append({"claim": "default grid_samples is the one in the signature (%d)" % DEFAULT_SAMPLES, "polygon": pts,
+                              "raysect_seed": rseed})
         else:
             for const in (2.5, Constant3D(2.5), lambda x, y, z: 2.5):
                 got = float(v.emissivity_from_function(const, 3))
@@ -725,7 +753,7 @@ def search_grid_history(impl, gp, rng):
             impl.seed(rseed)
             e10 = [float(x) for x in g.emissivities_from_function(f)]
             impl.seed(rseed)
-            e10x = [float(x) for x in g.emissivities_from_function(f, 10)]
+            e10x = [float(x) for x in g.emissivities_from_function(f, DEFAULT_SAMPLES)]
             if e != fresh:
                 fails.append(dict(info, claim="emissivities_from_function equals the per-voxel emissivity_from_function calls "
                                               "in order (same seed)", raysect_seed=rseed, got=e, want=fresh))
@@ -756,7 +784,7 @@ def search_grid(impl, polys):
                       "polygons": polys})
     for p, vol in zip(polys, vols):
         area, cx, _ = exact_reference(p)
-        want = 2 * frac(PI) * cx * area
+        want = 2 * frac(math.pi) * cx * area
         if abs(frac(vol) - want) > tolerances(p)[3]:
             fails.append({"claim": "voxel volume in a grid = 2 pi * centroid radius * area", "polygon": p, "got": vol,
                           "want": float(want)})
@@ -806,8 +834,30 @@ def run(ctx):
     ctx.proofs("Properties.C17", THEOREMS, extra_modules=("Model.C17_Check", "Proofs.C17_Check"))
 
     import cherab
-    from common import REPO
+    from common import REPO, coqc
     assert list(cherab.__path__) == [REPO + "/cherab"], cherab.__path__
+    # ---- translator: constants of the current source -> coq/Gen/C17/Consts.v with kernel-checked tie lemmas --------
+    global PI, DEFAULT_SAMPLES
+    consts = translate_constants(REPO)
+    PI, DEFAULT_SAMPLES = consts["PI"], consts["default_grid_samples"][0]
+    ctxt = ("Require Import Cherab.Common.Qx Cherab.Model.C17_Voxels.\nOpen Scope Q_scope.\n"
+            "(* generated from cherab/tools/inversions/voxels.pyx: PI = %s; default grid_samples %s; primitive_type '%s' *)\n"
+            "Definition src_PI : Q := %s.\nDefinition src_default_samples : list Z := %s.\n"
+            "Definition src_default_primitive_type : Z := %s.\n"
+            "(* the constant lies in (3.1415926535897931, 3.1415926535897933), which contains pi and exactly one double; all entry "
+            "points share one positive default; default type is 'csg' *)\n"
+            "Lemma src_PI_ok : Qlt_b (31415926535897931 # 10000000000000000) src_PI && Qlt_b src_PI (31415926535897933 # 10000000000000000) = true.\n"
+            "Proof. vm_compute. reflexivity. Qed.\n"
+            "Lemma src_defaults_ok : forallb (fun d => (d =? hd 0%%Z src_default_samples)%%Z && (1 <=? d)%%Z) src_default_samples = true.\n"
+            "Proof. vm_compute. reflexivity. Qed.\n"
+            "Lemma src_default_type_constructs : forall rows l, construct rows src_default_primitive_type = inr l -> "
+            "construct rows 0 = inr l.\nProof. intros rows l H. exact H. Qed.\n"
+            % (consts["PI_text"], consts["default_grid_samples"], consts["default_primitive_type"], qlit(PI),
+               "[" + "; ".join(zlit(d) for d in consts["default_grid_samples"]) + "]%Z",
+               {"csg": "0%Z", "mesh": "1%Z"}.get(consts["default_primitive_type"], "2%Z")))
+    okc, outc = coqc(ctx.write_gen("Consts.v", ctxt), timeout=300)
+    ctx.obligation("tie: constants regenerated from voxels.pyx (PI, default grid_samples, default primitive_type)", "tie",
+                   okc, outc)
     impl = Impl()
     impl.crumb = ctx.crumb
     ctx.log("proofs checked")
@@ -855,6 +905,9 @@ def run(ctx):
         cases.append("check_geom %s %s %s %s %s %s %s" % (ptlist(pts), ptlist(g["stored"]), qlit(PI), qlit(g["area"]),
                                                           qlit(g["cx"]), qlit(g["cy"]), qlit(g["volume"])))
         meta.append({"kind": "geometry", "class": cls, "tag": tag, "polygon": pts, "impl": g})
+        if len(pts) == 4 and g.get("rect_path") is not None:
+            cases.append("check_rect_path %s %s" % (ptlist(g["stored"]), "true" if g["rect_path"] else "false"))
+            meta.append({"kind": "rect_path", "polygon": pts, "stored": g["stored"], "impl_rect_path": g["rect_path"]})
         return g
 
     for cls, exact, pts in polys:
@@ -927,6 +980,113 @@ def run(ctx):
                                                           "true" if rp[2] == "ZeroDivisionError" else "false"))
         meta.append({"kind": "degenerate", "polygon": deg, "impl": rp})
         n_degenerate += 1
+
+    # ---- constructor with raw rows of any length and a primitive_type ---------------------------------------
+    def rows_lit(rows):
+        return "[" + "; ".join("[" + "; ".join(qlit(x) for x in r) + "]" for r in rows) + "]"
+    n_construct = 0
+    valid_small = [p[2] for p in polys if p[1] and p[0] not in ("scaled", "bigstar")]
+    for i in range(12 if quick else 120):
+        rows = [list(q) for q in valid_small[rng.randrange(len(valid_small))]]
+        for _ in range(rng.choice([0, 1, 1, 2])):
+            k = rng.randrange(len(rows))
+            how = rng.choice(["neg", "three", "one", "empty"])
+            if how == "neg" and rows[k]:
+                rows[k] = [-abs(rows[k][0]) - 0.5] + rows[k][1:]
+            elif how == "three":
+                rows[k] = rows[k] + [0.0]
+            elif how == "one":
+                rows[k] = rows[k][:1]
+            else:
+                rows[k] = []
+        if rng.random() < 0.15:
+            rows = rows[:rng.choice([0, 1, 2])]
+        ptype = rng.choice(["csg", "csg", "mesh", "foo", "CSG"])
+        impl.crumb({"call": "AxisymmetricVoxel(rows, primitive_type)", "rows": rows, "primitive_type": ptype})
+        stored = []
+        try:
+            vv = impl.Voxel(rows, primitive_type=ptype)
+            code = 0
+            stored = [(float(q.x), float(q.y)) for q in vv.vertices]
+        except TypeError:
+            code = 1
+        except ValueError:
+            code = 2
+        cases.append("check_construct %s %s %s %s" % (rows_lit(rows), {"csg": "0", "mesh": "1"}.get(ptype, "2"), zlit(code),
+                                                      ptlist(stored)))
+        meta.append({"kind": "construct", "rows": rows, "primitive_type": ptype, "impl_code": code})
+        n_construct += 1
+    # ---- grid_samples = 0 / negative; __getitem__ / set_active argument policy ------------------------------------
+    n_policy = 0
+    for pts in valid_small[:2]:
+        vv, g0 = impl.geom(pts)
+        trs = impl.triangles(g0["stored"])
+        for n in (0, -1, -7):
+            try:
+                val, code = float(vv.emissivity_from_function(lambda x, y, z: 1.0, n)), 0
+            except ZeroDivisionError:
+                val, code = 0.0, 1
+            cases.append("check_call_policy %s %s %s %s %s" % (ptlist(g0["stored"]), trilist(trs), zlit(n), zlit(code), qlit(val)))
+            meta.append({"kind": "policy", "call": "emissivity_from_function", "polygon": pts, "grid_samples": n,
+                         "impl_code": code, "value": val})
+            n_policy += 1
+    for count in (0, 1, 3):
+        gobj = impl.Grid([valid_small[k] for k in range(count)])
+        for it_lit, it in [("(ItInt (%d))" % i, i) for i in (-1, 0, count - 1, count, count + 5)] + \
+                [("ItAll", "all"), ("ItOther", "x"), ("ItOther", None), ("ItOther", 1.5)]:
+            for fn in ("getitem", "set_active"):
+                try:
+                    gobj[it] if fn == "getitem" else gobj.set_active(it)
+                    code = 0
+                except TypeError:
+                    code = 1
+                except IndexError:
+                    code = 2
+                except ValueError:
+                    code = 3
+                cases.append("check_%s %d %s %s" % (fn, count, it_lit, zlit(code)))
+                meta.append({"kind": "policy", "call": fn, "count": count, "item": repr(it), "impl_code": code})
+                n_policy += 1
+    # ---- emissivities_from_function: the voxels in order on one stream of uniforms ------------------------------------
+    n_emis_grid = 0
+    for gi in range(3 if quick else 30):
+        size = [1, 2, 4][gi % 3]
+        gp = [valid_small[rng.randrange(len(valid_small))] for _ in range(size)]
+        n = [1, 3, 5][(gi // 3) % 3] if not quick else [3, 1, 5][gi]
+        coeffs = (dyadic(rng, -2, 2, 3), dyadic(rng, -2, 2, 3), dyadic(rng, -2, 2, 3))
+        rseed = rng.randint(1, 2 ** 62)
+        impl.crumb({"call": "ToroidalVoxelGrid(polygons).emissivities_from_function(c0 + c1 r + c2 z, grid_samples) after seed",
+                    "polygons": gp, "grid_samples": n, "raysect_seed": rseed, "coeffs": coeffs})
+        gobj = impl.Grid(gp)
+        spts = []
+
+        def frec(x, y, z, c=coeffs, out=spts):
+            out.append((float(x), float(z)))
+            return c[0] + c[1] * x + c[2] * z
+        impl.seed(rseed)
+        vals = [float(x) for x in gobj.emissivities_from_function(frec, n)]
+        vox = []
+        total_u = 0
+        for vx in gobj:
+            st = [(float(q.x), float(q.y)) for q in vx.vertices]
+            trs = impl.triangles(st)
+            vox.append((st, trs))
+            total_u += n * (3 if len(trs) > 1 else 2)
+        impl.seed(rseed)
+        stream = [impl.uniform() for _ in range(total_u)]
+        if len(spts) != n * size:
+            impl_errors.append({"claim": "emissivities_from_function evaluates the function grid_samples times per voxel",
+                                "polygons": gp, "grid_samples": n, "evaluations": len(spts)})
+            continue
+        cases.append("check_emissivities [%s] [%s] %d [%s] [%s] [%s] %s %s %s" % (
+            "; ".join("(%s, %s)" % (ptlist(st), trilist(trs)) for st, trs in vox),
+            "; ".join("(%s, %s)" % (qlit(u), qlit(math.sqrt(u))) for u in stream), n,
+            "; ".join(qlit(u) for u in stream),
+            "; ".join(ptlist(spts[k * n:(k + 1) * n]) for k in range(size)),
+            "; ".join(qlit(x) for x in vals), qlit(coeffs[0]), qlit(coeffs[1]), qlit(coeffs[2])))
+        meta.append({"kind": "emissivities", "polygons": gp, "grid_samples": n, "raysect_seed": rseed, "coeffs": coeffs,
+                     "values": vals})
+        n_emis_grid += 1
 
     # ---- emissivity: every sample point and the mean ---------------------------------------------------
     emis_pool = [p for p in polys if p[1]] or polys
@@ -1104,6 +1264,10 @@ def run(ctx):
         "distinct_nontrivial": len({json.dumps(m.get("polygon", m.get("polygons")), default=str) + m["kind"]
                                     + str(m.get("raysect_seed", "")) for m in meta}),
         "ambiguous_excluded": len(ambiguous),
+        "ambiguous_by_kind": {k: sum(1 for ci in ambiguous if meta[ci]["kind"] == k) for k in {meta[ci]["kind"] for ci in ambiguous}},
+        "geometry_cases_compared_at_exact_area_tolerance": sum(
+            1 for m in meta if m["kind"] == "geometry" and len(m["polygon"]) <= 12 and all(
+                float(c * 4096).is_integer() and abs(c * 4096) < 2 ** 23 for q in m["polygon"] for c in q)),
         "rule": "one geometry case = one voxel built from one vertex list (stored list compared exactly; area, centroid, "
                 "volume under the rounding budget); one emissivity case = one seeded call of emissivity_from_function "
                 "(every sample point and the mean compared); one grid case = one ToroidalVoxelGrid.total_volume; non-trivial = "
@@ -1115,8 +1279,15 @@ def run(ctx):
                              search_samples_per_polygon=4000 if quick else 20000,
                              expectation_tests_by_grid_samples=exp_counts, expectation_calls_per_test=n_calls,
                              scale_exponents=scale_exps, scale_covariance_tests=n_scale, zero_area_cases=n_degenerate,
-                             argument_form_and_history_polygons=n_forms, grid_history_grids=n_grid_hist),
+                             argument_form_and_history_polygons=n_forms, grid_history_grids=n_grid_hist,
+                             constructor_raw_row_cases=n_construct, policy_cases=n_policy,
+                             emissivities_from_function_grids=n_emis_grid, source_constants=consts),
         "tolerance": {"stored vertices, error kind, triangulation shape, triangle orientation, sum of triangle areas": "exact",
+                      "small dyadic vertex lists (coordinates k/256, |k| < 2^15, <= 12 vertices; decided inside Coq)":
+                          "area exact; centroid 2^-52 relative (one rounding of the division); volume 2^-51 relative",
+                      "vertex lists with coordinates k/4096, |k| < 2^23, <= 12 vertices": "area exact",
+                      "which CSG builder ran (rectangle test), raw-row constructor outcome, grid_samples <= 0 outcome, "
+                      "__getitem__/set_active outcome": "exact",
                       "area": "2^-48 * n * sum(|x_i y_j| + |x_j y_i|) / 2   (32 x first-order summation bound)",
                       "centroid": "2^-48 * n * (num_scale / (3|S|) + |c| * area_scale / |S|) + 2^-50 |c|",
                       "volume": "2 pi (tol_cx * area + |cx| tol_area) + 2^-50 |V|",
